@@ -188,10 +188,12 @@ func (c12) Exec(h []Ev) []Ev {
 				keep := append([]byte(nil), b...)
 				x, err := ebp.ReadEncoderBoundaryPoint(b)
 				e["err"] = err != nil
-				e["g"], e["redata"] = Ev{}, []int{}
+				e["g"], e["redata"], e["g_again"], e["redata2"] = Ev{}, []int{}, Ev{}, []int{}
 				if err == nil {
 					e["g"] = c12Getters(x)
 					e["redata"] = B(x.Data())
+					// encoding must not change the object: same values, same bytes again
+					e["g_again"], e["redata2"] = c12Getters(x), B(x.Data())
 					defer held.hold(func() string { return jsonOf(c12Getters(x)) + jsonOf(B(x.Data())) })
 				}
 				e["input_same"] = string(b) == string(keep)
@@ -268,6 +270,8 @@ func (c12) Exec(h []Ev) []Ev {
 				e["g1"] = c12Getters(x)
 				data := x.Data()
 				e["bytes"] = B(data)
+				// encoding must not change the object
+				e["g1_again"], e["bytes_again"] = c12Getters(x), B(x.Data())
 				y, err := ebp.ReadEncoderBoundaryPoint(data)
 				e["err2"] = err != nil
 				e["g2"] = Ev{}
